@@ -4,12 +4,31 @@ import DswModel.Model.Graphized
 import DswModel.Model.Spiderweb
 import DswModel.Model.Biofilter
 import DswModel.Model.Capacity
+import DswModel.Py.Wire
+import DswModel.Gen.Operation
 /-!
 Line-protocol driver: one operation per input line, one canonical result line per operation.
 Imports only `DswModel.Model.*` (core Lean), so it links as a native executable; the definitions
-executed here are the ones the theorems in `DswModel.Props.*` are about.
+executed here are the ones the theorems in `DswModel.Props.*` are about.  `gen <function> <args…>`
+runs the definitions that `harness/py2lean.py` generated from the Python source
+(`DswModel.Gen.*`, the ones the theorems in `DswModel.Tie.*` are about).
 -/
 open Dsw
+
+/-- fuel handed to the generated definitions (every `while` loop of the source gets this many
+iterations at most). -/
+def genFuel : Nat := 1000000000
+
+def stepGen (name : String) (args : List String) : String :=
+  match args.mapM Dsw.Py.parsePV with
+  | none => "bad-arg"
+  | some vs =>
+    match Dsw.Gen.dispatch_operation genFuel name vs with
+    | none => "bad-op"
+    | some (.ok v) => "ok " ++ Dsw.Py.showPV v
+    | some (.error e) => "err " ++ (match e with
+        | .valueError => "ValueError" | .indexError => "IndexError" | .typeError => "TypeError"
+        | .overflowError => "OverflowError" | .other => "Other" | .outOfFuel => "OUT_OF_FUEL")
 
 def errName : PyErr → String
   | .valueError => "ValueError" | .indexError => "IndexError" | .typeError => "TypeError"
@@ -120,6 +139,7 @@ def showScaled (x : Rat) : String := toString ((x * (10 ^ 18 : Nat)).floor)
 
 def step (line : String) : String :=
   match line.trimAscii.toString.splitOn " " with
+  | "gen" :: name :: args => stepGen name args
   | ["add", s, b] => showDigits (calculusAddition (digitsOf s) (parseNatD b))
   | ["sub", s, b] => showDigits (calculusSubtraction (digitsOf s) (parseNatD b))
   | ["mul", s, b] => showDigits (calculusMultiplication (digitsOf s) (parseNatD b))
